@@ -277,7 +277,7 @@ class Schema:
         if base is None and discr_field is None and (force_self or r.random() < (0.15 if self.small else 0.10)):
             # a field referring to the class itself: by name (forward reference, always the declaring class) or
             # by typing.Self (the class of the instance: a subclass nests instances of the subclass)
-            use_self = force_self or r.random() < 0.5
+            use_self = (force_self is True) or (force_self != "name" and r.random() < 0.5)
             if r.random() < 0.6:
                 fields.append([f"{prefix}{name.lower()}_self", T("selfopt", use_self, name=name), "None"])
             else:
